@@ -9,6 +9,16 @@ TRUST=("go/packages + go/ssa construction; the vendored x/tools interpreter's co
        "mathematical integers (no overflow); cvc5 1.0 / z3 verdicts (any unknown/error makes the run inconclusive, exit 2)")
 
 claimed={
+ "C18":{"category":"model_checking",
+   "text":"GSX executes newRuleguardChecker/newErrorHandler/failOnParseError and the GroupFilter closure from SSA against nondeterministic models of filepath.Glob, os.ReadFile and ruleguard's Engine (a fault schedule: malformed / unmatched / 1-2 files per pattern; each file readable or not, loading fine, with an import fault or a DSL fault), for every failOn subset, the legacy flag, symbolic failOn tokens and symbolic group names/tags/enable/disable keys; the oracle is the statement transcribed; counterexamples are replayed by realising the schedule with real rule files and the real ruleguard loader",
+   "design_ref":"DESIGN.md 3 C18",
+   "technique":"symbolic execution of go/ssa with environment models + SMT (strings), fault-schedule enumeration by forking, native replay on a real file system",
+   "note":TRUST+"; the real ruleguard loader's classification of faults is outside (modelled); bounds: 2 patterns x <=2+1 files, failOn <=2 tokens of <=6 bytes, 1 group with <=2 tags, <=2 enable keys + 1 disable key"},
+ "C19":{"category":"model_checking",
+   "text":"GSX executes, with the panic monitor on, (*program).loadProgram with a symbolic -go value (package loading stubbed), initCheckers with symbolic constructor failures, three consecutive analyzer passes (runAnalyzer/prepareGocritic/newGocritic/createCheckers) from the initial global state with a symbolic -go value and constructor outcome, and the ruleguard constructor under invalid failOn / unmatched patterns; asserted: never a panic, invalid configuration => error before any checker is created, constructor failure aborts initialisation as a whole, later passes neither crash nor analyse",
+   "design_ref":"DESIGN.md 3 C19",
+   "technique":"symbolic execution of go/ssa with panic monitor + SMT (strings), native replay",
+   "note":TRUST+"; flag parsing itself (unparsable parameter values) and ill-typed target packages are outside this round; bounds: -go value <= 6 bytes, 3 passes"},
  "C15":{"category":"model_checking",
    "text":"GSX executes linter.ParseGoVersion, GoVersion.GreaterOrEqual and Context.SetGoVersion from SSA with the version string / components as solver variables: accepted strings are exactly (go)?<int>.<int> or empty (regular-language oracle), components are read numerically and in order, comparison is numeric lexicographic order with unset = newest; all assertions discharged unsat by cvc5/z3 within |version|<=8",
    "design_ref":"DESIGN.md 3 C15 (a)",
